@@ -23,6 +23,7 @@ objects so they can be GCed
 import (
 	"fmt"
 	"os"
+	"reflect"
 	"runtime/debug"
 	"strings"
 
@@ -1021,6 +1022,26 @@ func do_LOAD_ATTR(vm *Vm, namei int32) error {
 
 // Performs a Boolean operation. The operation name can be found in
 // cmp_op[opname].
+// objectIs returns whether a and b are the same object
+//
+// a == b panics for objects of the same uncomparable Go type
+// (tuples, bytes and dicts are slices and maps) so those are
+// compared by the identity of their storage.
+func objectIs(a, b py.Object) bool {
+	switch x := a.(type) {
+	case py.Tuple:
+		y, ok := b.(py.Tuple)
+		return ok && len(x) == len(y) && (len(x) == 0 || &x[0] == &y[0])
+	case py.Bytes:
+		y, ok := b.(py.Bytes)
+		return ok && len(x) == len(y) && (len(x) == 0 || &x[0] == &y[0])
+	case py.StringDict:
+		y, ok := b.(py.StringDict)
+		return ok && reflect.ValueOf(x).Pointer() == reflect.ValueOf(y).Pointer()
+	}
+	return a == b
+}
+
 func do_COMPARE_OP(vm *Vm, opname int32) error {
 	b := vm.POP()
 	a := vm.TOP()
@@ -1048,9 +1069,9 @@ func do_COMPARE_OP(vm *Vm, opname int32) error {
 		in, err = py.SequenceContains(b, a)
 		r = py.NewBool(!in)
 	case PyCmp_IS:
-		r = py.NewBool(a == b)
+		r = py.NewBool(objectIs(a, b))
 	case PyCmp_IS_NOT:
-		r = py.NewBool(a != b)
+		r = py.NewBool(!objectIs(a, b))
 	case PyCmp_EXC_MATCH:
 		if bTuple, ok := b.(py.Tuple); ok {
 			for _, exc := range bTuple {
